@@ -720,6 +720,7 @@ func TestC15(t *testing.T) {
 	r := vh.New("C15", "grant-differential")
 	r.Rule = "SQLite-dialect statements from the grammar-driven generator: one directed statement per (reference position x relation) plus PRNG statements of every kind; " +
 		"each is sent to @sql and to the sql task of @transaction once per element of its EXPLAIN-derived required set with that single grant removed; " +
+		"plus WITH clauses whose CTE name collides with a stored table/view (top level, nested subqueries, recursive, INSERT…SELECT/UPDATE/DELETE) with references inside and outside the CTE scope; " +
 		"plus multi-statement payloads (JSON array to @sql, several sql tasks to @transaction): every ordered pair of different verbs on one table, the same with an unrelated statement in between, and PRNG batches of 2-4 statements over 1-2 tables, required set per statement, whole batch must be refused and nothing applied; " +
 		"distinct = distinct statement text; non-trivial = the statement executes (200) under the full grant set and requires at least one grant"
 	r.Assume("SQLite EXPLAIN (OpenRead/OpenWrite root pages, writes to sqlite_master, Destroy, CreateBtree) on a checker connection with the same schema is the ground truth of what a statement touches")
@@ -822,6 +823,9 @@ func TestC15(t *testing.T) {
 		}
 	}
 
+	// 1b. CTE names that collide with stored tables, referenced inside and outside the CTE's scope
+	c.cteCollisions()
+
 	// 2. multi-statement payloads (verb-order table + PRNG batches)
 	c.batches(g, vh.N(40, 3000))
 
@@ -833,6 +837,11 @@ func TestC15(t *testing.T) {
 		st := g.Any()
 		if st.Kind == "txn" {
 			continue
+		}
+
+		if i%10 == 9 {
+			st = cteRandom(g)
+			r.Count("cte.random", 1)
 		}
 
 		avoid := false
